@@ -275,7 +275,8 @@ class HiveParser(parser.Parser):
             return expression
 
         if isinstance(expression, exp.Column):
-            key = expression.this
+            # the key must be its own node: the column's identifier stays where it is
+            key = expression.this.copy()
         else:
             key = exp.to_identifier(f"col{index + 1}")
 
